@@ -734,6 +734,9 @@ class Alg:
                     r = self.mul(self._r(self.p_atom(at)), self.diff(args_[0], x))
                 elif fn_ == 'log' and len(args_) == 1:
                     r = self.div(self.diff(args_[0], x), args_[0])
+                elif fn_ == 'wrap180' and len(args_) == 1:
+                    # W(u) = u + 360 k with k locally constant (away from the jump)
+                    r = self.diff(args_[0], x)
                 else:
                     raise ValueError('derivative of %s unknown' % fn_)
             else:
